@@ -693,7 +693,7 @@ pub fn run(mode: Mode, run: &mut Run) {
     let mut states = a.states + b.states + d.states;
     let mut evaluations = transitions;
     if mode == Mode::C01 {
-        let (max_len, max_limit) = if quick { (3, 8) } else { (5, 12) };
+        let (max_len, max_limit) = if quick { (4, 8) } else { (5, 12) };
         let caps_list = [1usize, 2, 3, 8];
         let c = crate::interp::genome_sweep(mode, run, max_len, max_limit, &caps_list);
         let (pairs, pair_runs) = crate::interp::pair_sweep(mode, run);
